@@ -16,15 +16,15 @@ import (
 // A variant is a seeded mutation of the real tree, applied through a go/packages overlay in a
 // sub-process; the named rule must report a violation on it ("the checker fires when the code is broken").
 type variant struct {
-	Name     string   `json:"name"`
-	Prop     string   `json:"property"`
-	Rules    []string `json:"expect_rules"`
-	Patch    string   `json:"patch,omitempty"` // unified diff (seeded change)
-	File     string   `json:"file,omitempty"`  // or: exact text substitution in one file
-	Old      string   `json:"old,omitempty"`
-	New      string   `json:"new,omitempty"`
-	Origin   string   `json:"origin"`
-	Quiet    bool     `json:"quiet,omitempty"` // a behaviour-preserving refactoring: NO rule may report it
+	Name   string   `json:"name"`
+	Prop   string   `json:"property"`
+	Rules  []string `json:"expect_rules"`
+	Patch  string   `json:"patch,omitempty"` // unified diff (seeded change)
+	File   string   `json:"file,omitempty"`  // or: exact text substitution in one file
+	Old    string   `json:"old,omitempty"`
+	New    string   `json:"new,omitempty"`
+	Origin string   `json:"origin"`
+	Quiet  bool     `json:"quiet,omitempty"` // a behaviour-preserving refactoring: NO rule may report it
 }
 
 type variantResult struct {
